@@ -156,3 +156,16 @@ Theorem C02_source_tie_tax_engine_loop :
   (forall ar sched t, fractions_of_gen ar sched t = fractions_of ar sched t).
 Proof. exact tax_engine_matcher_agrees. Qed.
 Print Assumptions C02_source_tie_tax_engine_loop.
+
+(** SOURCE TIE (which lots a disposal may draw on).  The AVL key of accounting_engine.py, re-read from the source on every run
+    (Model/GeneratedTie.v, fragment avl_key; interpreter Model/AvlKeyGen.v): the key inserted for a lot ranks as (UTC instant in
+    microseconds, row); a lot's key is <= the key looked up for a taxable event exactly when the lot was acquired at or before
+    the event's INSTANT (not its wall-clock time, not its second), for rows 0 .. 10^12 - 1 = what the max disambiguator spells.
+    This is the test `xt <=? t` of [Matcher.to_index_aux] behind "every disposal is covered by earlier lots only". *)
+From RP2V Require Import Model.GeneratedTie Model.AvlKeyGen Proofs.AvlKeyGenProofs.
+Theorem C02_source_tie_lots_visible_to_a_disposal :
+  (forall l, ak_inserted l = Some (utc_us (i_ts l), i_row l)) /\
+  (forall l te, 0 <= i_row l <= ak_max_num -> ak_visible l te = Some (utc_us (i_ts l) <=? utc_us te)) /\
+  ak_max_num = 10 ^ gen_ak_width - 1.
+Proof. exact avl_key_gen_agrees. Qed.
+Print Assumptions C02_source_tie_lots_visible_to_a_disposal.
